@@ -145,6 +145,38 @@ class PipelineRun:
             except AttributeError:
                 pass
         sim.step_hooks.append(hook)
+        self.hang_diag = None
+
+        def on_hang(sim):
+            """Name the wait-for cycle at the moment the scheduler finds nothing runnable."""
+            if self.hang_diag is not None:
+                return
+            self.hang_diag = ""
+            try:
+                for proc in P.SpyTMP.INSTANCES:
+                    conds = {}
+                    for key, m in proc.mailboxes.items():
+                        for cn in ("_read_condition", "_write_condition", "_fetch_new_condition"):
+                            conds[id(getattr(m, cn).threading_condition)] = (key, cn)
+                    for t in sim.threads:
+                        b = t.blocked_on
+                        if not (t.started and not t.finished and b and b[0] == "cond"):
+                            continue
+                        key, cn = conds.get(id(b[1]), (None, None))
+                        if cn == "_fetch_new_condition" and "divide_outputs" in (t.name or "") \
+                                and t.name.startswith("read_"):
+                            plug = proc.components.plugins.get(key)
+                            sibs = [d for d in (plug.provides if plug is not None else ()) if d != key]
+                            for d in sibs:
+                                sm = proc.mailboxes.get(d)
+                                if sm is None:
+                                    continue
+                                if any(cd and wf is not None and not any(num == wf for num, _ in sm._mailbox)
+                                       for cd, wf in zip(sm._subscriber_can_drive, sm._subscriber_waiting_for)):
+                                    self.hang_diag = "lazy divide_outputs gate"
+            except Exception:
+                pass
+        sim.on_hang = on_hang
 
     def get_chunks(self, ctx, targets, **kw):
         cfg = self.cfg
@@ -193,9 +225,17 @@ def common_verdict(pr, out, expect_exception=False):
         return ab, False
     if pr.cap_violation:
         return pr.cap_violation, False
+    if sim.lost_wakeups:
+        lw = sim.lost_wakeups[0]
+        return Violation("LOST_WAKEUP", f"a thread keeps waiting although its condition holds "
+                                        f"({lw['predicate']})", lw), False
     if sim.hangs:
         h = sim.hangs[0]
         who = re.sub(r"\d+", "#", h["fired"])
+        diag = getattr(pr, "hang_diag", None)
+        if diag:
+            return Violation("HANG", f"{diag}: an output nobody waits for yet blocks a sibling output "
+                                     f"that a driving reader waits for", h), False
         return Violation("HANG", f"progress only by timeout: {who} waiting on {h['waiting_on']}", h), False
     for nm, e in sim.thread_excs:
         if isinstance(e, S.HarnessError):
